@@ -75,6 +75,20 @@ def check_one(dc, st, raw, r, start):
     st.inc('evaluations')
     if r[0] != 'ok':
         st.inc('oos' if r[0] == 'oos' else 'ref_rejected')
+        if r[0] == 'fail' and start == 0 and not (dc.feats & {'pos', 'abs', 'class_align', 'elem_aligned', 'em', 'nonconsume', 'regex_nonkept', 'eos', 'rawcb', 'dollar'}):
+            # the reference rejects the input; whether the library does is C04's business - but IF it parses it, a purely sequential
+            # declaration must serialize the result to exactly the bytes it traversed, and those must exist
+            u = ea.impl_unpack(dc.K, raw, 0)
+            if u[0] == 'ok':
+                try:
+                    end = ea.impl_end(dc.K, raw, 0)
+                except Exception:
+                    return
+                out = ea.impl_pack(u[1])
+                if isinstance(end, int) and (end > len(raw) or out[0] != 'ok' or out[1] != raw[:end]):
+                    call = '%s.unpack(%r).pack()' % (dc.P['name'], raw)
+                    st.violate('sequential round trip differs', '%s -> %r; the parse ended at %r of %d bytes: %r | %s' % (
+                        call, out[1], end, len(raw), raw[:end], dc.src.replace('\n', '; ')), dc.case(raw=raw, start=0), dc.snippet('print(%s)' % call))
         return
     ok = r[1]
     u = ea.impl_unpack(dc.K, raw, start)
